@@ -373,3 +373,47 @@ Theorem flush_uses_connection_capability c es w id :
 Proof.
   intros Hr Hc Hu. pose proof (run_inv c es _ _ (inv0 c) Hr) as [_ _ _ _ Hcap]. exact (Hcap id Hc Hu).
 Qed.
+
+(* ------------------------------------------------------------ nothing after Close *)
+Fixpoint run_emitted (c : cfg) (w : world) (es : list sev) : list smsg :=
+  match es with
+  | [] => []
+  | e :: r => emitted c w e ++ match step c w e with Some w' => run_emitted c w' r | None => [] end
+  end.
+
+Lemma run_app c es1 : forall es2 w w', run c w (es1 ++ es2) = Some w' ->
+  exists w1, run c w es1 = Some w1 /\ run c w1 es2 = Some w'.
+Proof.
+  induction es1 as [|e es1 IH]; intros es2 w w' H; cbn in *.
+  - eauto.
+  - destruct (step c w e) as [w0|]; [|discriminate]. apply IH. assumption.
+Qed.
+
+Lemma silent_when_closed c es : forall w w', Inv c w -> closed (ws w) = true -> run c w es = Some w' ->
+  run_emitted c w es = [] /\ forallb (fun e => negb (dials e)) es = true /\ closed (ws w') = true /\ conn (ws w') = None.
+Proof.
+  induction es as [|e es IH]; intros w w' HI Hcl H; cbn in H.
+  - inversion H; subst. repeat split; auto. apply (I_closed c w' HI Hcl).
+  - destruct (step c w e) as [w1|] eqn:E; [|discriminate].
+    destruct (closed_silent c w e w1 HI Hcl E) as (Hcl1 & _ & Hem & Hd & _).
+    destruct (IH w1 w' (step_inv c w e w1 HI E) Hcl1 H) as (H1 & H2 & H3 & H4).
+    cbn [run_emitted forallb]. rewrite E, Hem, Hd, H1, H2. auto.
+Qed.
+
+(* over ALL interleavings: whatever happened before Close and whatever is
+   attempted after it (Set, reader events, peer events, handshakes, flushes,
+   keepalives): after the Close step no message is written and nothing dials;
+   in particular no handshake step (dial + OPEN exchange + accepting KEEPALIVE,
+   one critical section of s.mu in connect()) is enabled any more *)
+Theorem no_message_after_close c es1 es2 w :
+  run c world0 (es1 ++ EClose :: es2) = Some w ->
+  exists w1, run c world0 (es1 ++ [EClose]) = Some w1 /\ closed (ws w1) = true /\
+             run_emitted c w1 es2 = [] /\ forallb (fun e => negb (dials e)) es2 = true /\
+             closed (ws w) = true /\ conn (ws w) = None.
+Proof.
+  intros H. replace (es1 ++ EClose :: es2) with ((es1 ++ [EClose]) ++ es2) in H by (rewrite <- app_assoc; reflexivity).
+  apply run_app in H. destruct H as (w1 & H1 & H2). exists w1. split; [assumption|].
+  assert (Hcl : closed (ws w1) = true).
+  { apply run_app in H1. destruct H1 as (w0 & _ & H1). cbn in H1. inversion H1; subst. reflexivity. }
+  split; [assumption|]. apply (silent_when_closed c es2 w1 w (run_inv c _ _ _ (inv0 c) H1) Hcl H2).
+Qed.
